@@ -225,6 +225,7 @@ func genRequest(r *rand.Rand, o genOpts) *genReq {
 	w := M{}
 	used := map[float64]bool{}
 	nearKind := r.Intn(4)
+	nearPerm := r.Perm(len(ids)) // near-tied weights in no particular order (declaration order must not decide)
 	for i, id := range ids {
 		x := genWeight(r, o.profile)
 		if o.decimalW {
@@ -235,11 +236,11 @@ func genRequest(r *rand.Rand, o genOpts) *genReq {
 			// or sums that are equal on paper only (0.1+0.2 vs 0.3)
 			switch nearKind {
 			case 0:
-				x = 2.5 + float64(i)*1e-7
+				x = 2.5 + float64(nearPerm[i])*1e-7
 			case 1:
-				x = 2.5 + float64(i)*1e-10
+				x = 2.5 + float64(nearPerm[i])*1e-10
 			case 2:
-				x = 2.5 + float64(i)*4.440892098500626e-16
+				x = 2.5 + float64(nearPerm[i])*4.440892098500626e-16
 			default:
 				x = []float64{0.1 + 0.2, 0.3, 0.1 + 0.7, 0.8, 0.7 + 0.2, 0.9}[i%6]
 			}
@@ -596,7 +597,11 @@ func refProps(r *rand.Rand, p M, o genOpts) {
 		t = "importanceRatio"
 	}
 	if t != "" {
-		p["referenceCriterionType"] = t
+		if r.Intn(4) == 0 {
+			p["ReferenceCriterionType"] = t // the spelling of the README's prose; property names are matched case-insensitively
+		} else {
+			p["referenceCriterionType"] = t
+		}
 	}
 	if r.Intn(4) != 0 {
 		p["newCriterionImportance"] = float64(r.Intn(9)) / 8
@@ -630,4 +635,12 @@ func deepCopyM(m M) M {
 	var out M
 	json.Unmarshal(b, &out)
 	return out
+}
+
+// refTypeOf: the configured reference-criterion strategy, under either spelling
+func refTypeOf(p M, def string) string {
+	if v := strOr(p, "referenceCriterionType", ""); v != "" {
+		return v
+	}
+	return strOr(p, "ReferenceCriterionType", def)
 }
